@@ -132,9 +132,45 @@ def cases(ctx):
 
 def run(ctx):
     ctx.rule = ('corpus, the full pick-and-drop table (every object in front x held items x headings), random states with every function and '
-                'random compositions; oracle counts the inventory on the real step; non-trivial = the step changed the state or raised')
+                'random compositions; obstacles with a colour of their own (instances of a user subclass / individually coloured); oracle counts the inventory on the real step; non-trivial = the step changed the state or raised')
     tsuite.run_cases(ctx, cases(ctx), oracle)
     tsuite.run_histories(ctx, 150 if ctx.tier == 'quick' else 1500, oracle)
+    coloured_obstacles(ctx)
+
+
+def coloured_obstacles(ctx):
+    """every obstacle is an individual: obstacles whose colour is a property of the INSTANCE (a user subclass of MovingObstacle, or a colour
+    given to one obstacle) keep it when the dynamics move them -- the obstacle that arrives is the obstacle that left"""
+    import numpy as np
+    from gym_gridverse.envs import transition_functions as tf
+    from gym_gridverse.grid_object import Color
+    from gym_gridverse.utils.fast_copy import fast_copy
+    r = ctx.rng
+    for k in range(80 if ctx.tier == 'quick' else 800):
+        h, w = r.randint(2, 5), r.randint(2, 5)
+        cg = tuple(tuple(r.choice([gen.FLOOR, gen.FLOOR, (OBST_T, 0, 0, None), gen.WALL] if (y, x) != (0, 0) else [gen.FLOOR]) for x in range(w)) for y in range(h))
+        user = r.random() < 0.5
+        s = wire.mkstate((cg, (0, 0), r.randrange(4), gen.NONE), sub=OBST_T if user else None)
+        for pos in s.grid.area.positions():
+            if wire.cobj(s.grid[pos])[0] == OBST_T:
+                s.grid[pos].color = r.choice(list(Color))
+        if not user and r.random() < 0.5:
+            s = fast_copy(s)         # (the harness' run-time subclasses cannot be pickled)
+        before = wire.cstate(s)
+        names = r.choice([[3], [3], [0, 1, 3], [3, 6, 2]])
+        rng = np.random.default_rng(r.randrange(1 << 30))
+        try:
+            for n in names:
+                tf.transition_function_registry[impl.TNAMES[n]](s, impl.ACTS[r.randrange(8)], rng=rng)
+        except Exception as e:  # noqa: BLE001
+            ctx.violation(f'a step on a grid with coloured obstacles raised {type(e).__name__}', {'state': gen.show_state(before), 'functions': [impl.TNAMES[n] for n in names]})
+            continue
+        after = wire.cstate(s)
+        ctx.case(('coloured-obstacles', before, tuple(names), k), after != before, None)
+        ctx.count('coloured obstacles', 'moved' if after != before else 'unchanged')
+        if inventory(before) != inventory(after):
+            ctx.violation(f'a step changed the inventory of individually coloured obstacles: {dict(inventory(before) - inventory(after))} lost, {dict(inventory(after) - inventory(before))} created',
+                          {'state': gen.show_state(before), 'after': gen.show_state(after), 'functions': [impl.TNAMES[n] for n in names]})
 
 
 def replay(ctx, case):
